@@ -26,6 +26,10 @@ CHECKS = {
   "online conservation monitor inside the instrumented bucket (invariant checked atomically with every Store/Delete) while real sync loops are crashed at yield points (runtime.Goexit), restarted, cleaned and subjected to scripted storage faults",
   "Enumerated crash points (13 yield points x occurrence) x LMDB kept/emptied x own-snapshot download held back/failing x application writing before/at start-up x second instance; the real cleaner invoked with a virtual clock at every yield point and inside every (failing) Store attempt while a stale instance's only snapshot is merged; fleets with real background cleaners and List/Load/Store/Delete fault bursts below the retry budget. After every bucket mutation the join over the newest snapshots must not lose or lower any key; no upload before the own newest snapshot was merged.",
   "Crash = loop goroutine ends at a yield point and Sync's deferred cancel stops the helpers; LMDB transactions and bucket operations are atomic; sweeper off.", "DESIGN.md section 6 C05"),
+ "C06": ("exploration",
+  "runtime monitoring of real SendOnce dumps: every uploaded blob is decoded by the independent decoder and compared with a byte-exact LMDB dump (static) or with the recorded state history of a concurrently committing application (one-transaction membership)",
+  "Static: random LMDB contents (empty and flagged DBIs, private decoys, 5000 entries, 511-byte keys, multi-MB values, headers with extension blocks and foreign flag bits) dumped by the real SendOnce and compared entry by entry, plus wire-level field and flag checks, name/metadata/time checks. Concurrent: an application commits multi-DBI transactions back-to-back (counter in two DBIs; DBI creation + index update in one transaction, forced to commit exactly between the dump's preparation and its LMDB transaction at a yield point) while dumps run; native: blob == state of transaction M for all DBIs; shadow: blob == exactly one state within the dump transaction's window.",
+  "Only the harness writes besides LS. MDB_REVERSEKEY (documented unsupported) only on empty DBIs.", "DESIGN.md section 6 C06"),
  "C07": ("exploration",
   "runtime differential monitoring of the real codec against two reference decoders over generated and re-encoded inputs",
   "Differential runtime monitor: every generated snapshot (boundary lengths, buffer growth steps, 1000s of entries, multi-MB values, single entries beyond the growth step) is written by the real encoder and read back by the real hand-written decoder, the generated gogo codec and an independent strict wire parser; re-encodings (permuted fields, unknown fields of all wire types at every level, duplicated scalars, split Meta) must be read identically by all three. Held on the executions explored, not a proof.",
